@@ -22,24 +22,32 @@ def plan(ctx):
     one = TOPIC_VARIANTS[s % len(TOPIC_VARIANTS)]
     other = TOPIC_VARIANTS[(s // 3 + 1) % len(TOPIC_VARIANTS)]
     two = TWO_TOPICS[s % len(TWO_TOPICS)]
+    # with the resume position written before the ack (repair present in the tree) the model has no step between ack and
+    # nextEventID: the state space per bound is ~4 times smaller, so the bounds are raised to fill the same budget
+    repaired = "next_before_ack" in fed_lib.detect_fixes(ctx)
     if ctx.tier == "quick":
         fail_bounds = [{"emit": 2, "msg": 0, "brk": 1, "lost": 1, "failA": 1, "failB": 1},
                        {"emit": 2, "msg": 1, "brk": 0, "lost": 1, "failA": 1, "failB": 1}][s % 2]
+        core = {"emit": 3, "msg": 1, "brk": 1, "lost": 0}
+        if repaired:
+            fail_bounds = {"emit": 2, "msg": 1, "brk": 1, "lost": 1, "failA": 1, "failB": 1}
+            core = {"emit": 3, "msg": 1, "brk": 2, "lost": 0}
         return [
             # two local clients on one topic (reference counting), one message, a break anywhere
-            ("core", ["c1", "c2"], one, {"emit": 3, "msg": 1, "brk": 1, "lost": 0}),
+            ("core", ["c1", "c2"], one, core),
             # peer loses the session (B sees A fail / A sees B fail) around cut handshakes
             ("fail", ["c1"], other, fail_bounds),
         ]
-    return [
-        ("core2brk", ["c1", "c2"], one, {"emit": 3, "msg": 1, "brk": 2, "lost": 1}),
-        ("fail", ["c1"], other, {"emit": 2, "msg": 1, "brk": 1, "lost": 1, "failA": 1, "failB": 1}),
+    packs = [
+        ("core2brk", ["c1", "c2"], one, {"emit": 4 if repaired else 3, "msg": 1, "brk": 2, "lost": 1}),
+        ("fail", ["c1"], other, {"emit": 3 if repaired else 2, "msg": 1, "brk": 2 if repaired else 1, "lost": 1, "failA": 1, "failB": 1}),
         ("twotopics", ["c1"], two, [{"emit": 3, "msg": 0, "brk": 1, "lost": 1},
                                     {"emit": 2, "msg": 1, "brk": 1, "lost": 1, "failB": 1}][s % 2]),
         ("refcount_fail", ["c1", "c2"], one, {"emit": 3, "msg": 0, "brk": 1, "lost": 1, "failB": 1}),
         ("twotopics_failA", ["c1"], TWO_TOPICS[(s + 1) % len(TWO_TOPICS)], {"emit": 2, "msg": 0, "brk": 1, "lost": 1, "failA": 1}),
         ("core_failB", ["c1", "c2"], other, {"emit": 3, "msg": 1, "brk": 1, "lost": 1, "failB": 1}),
     ]
+    return packs
 
 
 def run(ctx):
